@@ -146,6 +146,19 @@ func runC08(r *vfw.Run) {
 	}
 	var hashes []common.Hash
 	L.Do(func() { hashes = L.Chain.GetTopBlockHashes(100) })
+	// an honest peer keeps certificates for permanent-certificate blocks and for its latest blocks only: in some runs the
+	// certificates of the other blocks of its branch are gone from its store before it is asked
+	if r.Choose("c08.weakcertsgone", 3) == 0 {
+		P.Do(func() {
+			head := P.Chain.Head.Height()
+			for _, b := range theirs.blocks {
+				if b.Height() < head && !P.Chain.IsPermanentCert(b.Header) {
+					P.Chain.VerifRepo().VerifRemoveCertificate(b.Hash())
+				}
+			}
+		})
+		r.Probe("peer_lost_intermediate_certificates")
+	}
 	var bundles []types.BlockBundle
 	P.Do(func() { bundles = P.Chain.ReadBlockForForkedPeer(hashes) })
 	if len(bundles) == 0 {
